@@ -101,7 +101,8 @@ func (r *Rule) Init() error {
 		r.irregularMap[item.Word] = item.Replacement
 	}
 
-	reString = fmt.Sprintf(`(?i)(.*)\b((?:%s))$`, strings.Join(vIrregulars, `|`))
+	// (?s): the text in front of the irregular word may contain line breaks and must be kept as well
+	reString = fmt.Sprintf(`(?is)(.*)\b((?:%s))$`, strings.Join(vIrregulars, `|`))
 	r.compiledIrregular = regexp.MustCompile(reString)
 
 	r.compiledRules = make([]*CompiledRule, len(r.Rules))
